@@ -1,4 +1,5 @@
 import I18n.Lemmas.GettextDateGenerated
+import I18n.Lemmas.CheckDatesGenerated
 import I18n.Props.C18
 /-!
 # C18 — the tie by translation: `fix_date_format` / `parse_date` REGENERATED from `lib/gettext.py` are the model
@@ -113,6 +114,39 @@ theorem fixed_date_parses_generated {s : List Char} {hint : Option (List Char)} 
   obtain ⟨c, hc, rfl⟩ := fix_canonical_generated h
   rw [generated_parse_date_eq_model, parseCanon_complete hc]
   exact ⟨_, rfl⟩
+
+/-! ## `Checker.check_dates` REGENERATED from `lib/check/__init__.py` (tools/translate/checkdates2lean.py) -/
+
+/-- `check_dates(ctx)` as regenerated (it calls the regenerated `fix_date_format` / `parse_date`) = the model's `checkDates`: the tags
+    appended to the output in emission order; an exception escaping is the model's `none` -/
+theorem generated_check_dates_eq_model (c : Ctx) (out : List Tag) :
+    (CheckDates.check_dates out c).toOption = (checkDates c).map (out ++ ·) :=
+  Gen.check_dates_eq c out
+
+/-- **NoCrash**, of the regenerated method: no exception escapes `check_dates` (`IndexError` is caught, the `ValueError` of a malformed hint
+    and the `AssertionError` cannot arise with the hints it passes, the second `parse_date` cannot fail), and what it returns is what the
+    model returns -/
+theorem check_dates_nocrash_generated (c : Ctx) : ∃ ts, CheckDates.check_dates [] c = .ok ts ∧ checkDates c = some ts := by
+  have h := generated_check_dates_eq_model c []
+  cases hm : checkDates c with
+  | none => exact absurd hm (C18.NoCrash c)
+  | some ts =>
+    rw [hm] at h
+    cases hg : CheckDates.check_dates [] c with
+    | error e => rw [hg] at h; simp [Except.toOption] at h
+    | ok ts' =>
+      rw [hg] at h
+      simp [Except.toOption] at h
+      exact ⟨ts', rfl, by rw [h]⟩
+
+/-- **check_dates_shape**, of the regenerated method: the whole output is, for POT-Creation-Date then PO-Revision-Date, the tags
+    `C18.check_dates_shape` / `C18.date_tags_iff` characterise -/
+theorem check_dates_shape_generated (c : Ctx) :
+    CheckDates.check_dates [] c = .ok (fieldTags c .pot c.pot ++ fieldTags c .po c.po) := by
+  obtain ⟨ts, h1, h2⟩ := check_dates_nocrash_generated c
+  rw [C18.check_dates_shape] at h2
+  cases h2
+  exact h1
 
 /-! Non-vacuity -/
 
